@@ -400,6 +400,16 @@ theorem C19_gen_load_image (st g : Tensor ℝ) (H W C : Nat) (hs : st.shape = [H
   exact ⟨⟨a1, fun i j k => by rw [a2, e, chanSwap_eq_load]⟩, ⟨b1, fun k i j => by rw [b2, e, chanSwap_eq_load]⟩,
     ⟨c1, fun i j => by rw [c2, e]⟩, rfl⟩
 
+/-- where the regenerated saver and the hand-written `saveLevel` DIFFER: for a bit depth other than 8 and 16 the source does not cast at
+    all (the array handed to the codec holds the scaled, untruncated values; `saveLevel` truncates for every depth), and for
+    `cmin > cmax` the two masked assignments of the source end at `cmax` where `saveLevel` clips to `cmin` -/
+theorem C19_gen_saver_differs_from_hand_model (img : Tensor ℝ) (H W d : Nat) (hs : img.shape = [H, W]) (h8 : d ≠ 8) (h16 : d ≠ 16)
+    (cmin cmax : ℝ) :
+    ((GenIC.np_save_image img cmin cmax d).shape = [H, W] ∧
+      ∀ i j, (GenIC.np_save_image img cmin cmax d).get [i, j] = clipSeq cmin cmax (img.get [i, j]) / cmax * ((2 : ℝ) ^ d - 1)) ∧
+    (clipSeq 2 1 0 = 1 ∧ clip 2 1 0 = 2) :=
+  ⟨np_save_image_other_depth img H W d hs h8 h16 cmin cmax, clipSeq_ne_clip_example⟩
+
 /-- how the codec is called: `cv2.imread` with `IMREAD_UNCHANGED` (bit depth and channel count of the file are kept), both on
     `expanduser(fn)`; defaults of the bit depth and of `torch_style` -/
 theorem C19_gen_codec_wiring :
